@@ -206,7 +206,7 @@ Proof.
   destruct (io_start_same s1 i ev) as [[Sb [Sn [Sp [Sq _]]]] _]. fold s2 in Sb, Sn, Sp, Sq.
   assert (Hoth : forall j, j <> i -> hget s2 j = hget s1 j) by (intros; apply io_start_other; auto).
   assert (Hl2 : length (hs s2) = length (hs s1)) by apply io_start_length.
-  set (s3 := hupd s2 i (fun h => h_set_ghost (h_set_active h true) (mand m ALLEV) (Some (npw s2)))).
+  set (s3 := hupd s2 i (fun h => h_set_ghost (h_set_active h true) ev (Some (npw s2)))).
   assert (Hs3 : hget s3 i = h_set_ghost (h_set_active (hget s2 i) true) ev (Some (npw s2))).
   { unfold s3. rewrite hget_hupd_same by lia. reflexivity. }
   assert (Hoth3 : forall j, j <> i -> hget s3 j = hget s1 j).
@@ -220,9 +220,9 @@ Proof.
     destruct (meqb m0 ev) eqn:Hm.
     + assert (j <> i) by (intros ->; eapply H2; eauto). rewrite Hoth3 by auto. apply B; auto.
     + destruct (Z.eqb_spec fd (h_fd (hget s i))) as [Hfd|Hfd].
-      * inversion Hc; subst j. rewrite Hs3, Hself. cbn. rewrite H10. split_all; auto.
-        -- unfold mzero. rewrite meqb_sym. auto.
-        -- intros _. exists (npw s1). split_all; auto.
+      * inversion Hc; subst j. rewrite Hs3, Hself. cbn. rewrite H10. split_all; auto;
+          try (unfold mzero; rewrite meqb_sym; auto; fail).
+        intros _. exists (npw s1). rewrite Sn. split_all; auto.
       * assert (j <> i) by (intros ->; eapply H2; eauto). rewrite Hoth3 by auto. apply B; auto.
   - intros f orig rep Hin. unfold s3 in Hin. cbn [batch hupd set_hs] in Hin. rewrite Sb in Hin.
     destruct (H3 _ _ _ Hin) as [|Hf]; auto. destruct (C _ _ _ Hin) as [|[E F]]; auto. right. split; auto.
@@ -247,7 +247,7 @@ Proof.
   assert (Hoth : forall j, j <> i -> hget (io_start s i ev) j = hget s j) by (intros; apply io_start_other; auto).
   assert (Hcases : forall fd j, reg (io_start s i ev) fd = Some j -> reg s fd = Some j \/ (j = i /\ fd = h_fd (hget s i))).
   { intros fd j Hc. rewrite Hreg in Hc. destruct (meqb _ _); auto. destruct (reg s (h_fd (hget s i))); auto.
-    destruct (Z.eqb_spec fd (h_fd (hget s i))); auto. inversion Hc; auto. }
+    destruct (Z.eqb_spec fd (h_fd (hget s i))); auto. inversion Hc; subst; right; auto. }
   constructor.
   - intro j. destruct (Nat.eq_dec j i) as [->|Hne]; [|rewrite Hoth by auto; apply A].
     rewrite Hself. cbn. apply mor_errhup; auto.
@@ -283,4 +283,289 @@ Proof.
   - intros f orig rep Hin. cbn [batch set_hs] in Hin. destruct (C _ _ _ Hin) as [|[E F]]; auto. right. split; auto.
     intros j Hc. cbn [reg set_hs] in Hc. destruct (B _ _ Hc) as [B1 _]. rewrite Hold by auto. apply F; auto.
   - intros j Hj. cbn [pend prun set_hs] in Hj. pose proof (D _ Hj) as Dk. rewrite Hold; auto.
+Qed.
+
+Lemma NI_same s s' :
+  hs s' = hs s -> reg s' = reg s -> batch s' = batch s -> npw s' = npw s -> pend s' = pend s ->
+  prun s' = prun s -> NI s -> NI s'.
+Proof.
+  intros Hh Hr Hb Hn Hp Hq. apply NI_ext; auto.
+  - rewrite Hh; auto.
+  - intro i. unfold hget. rewrite Hh. reflexivity.
+Qed.
+
+Lemma NI_queues s p q : NI s -> (forall j, In j p -> In j (pend s) \/ In j (prun s)) ->
+  (forall j, In j q -> In j (pend s) \/ In j (prun s)) -> NI (set_prun (set_pend s p) q).
+Proof.
+  intros [A B C D] Hp Hq. constructor; auto.
+  intros j [Hj|Hj]; cbn in Hj; apply D; auto.
+Qed.
+
+Lemma NI_batch_sub s b : NI s -> (forall e, In e b -> In e (batch s)) -> NI (set_batch s b).
+Proof. intros [A B C D] Hb. constructor; auto. intros f orig rep Hin. cbn in Hin. apply (C f orig rep). auto. Qed.
+
+Lemma io_check_fd_same s fd :
+  let s' := fst (io_check_fd s fd) in
+  hs s' = hs s /\ reg s' = reg s /\ wq s' = wq s /\ batch s' = batch s /\ npw s' = npw s /\
+  pend s' = pend s /\ prun s' = prun s /\ sq s' = sq s /\ ring s' = ring s /\ strict s' = strict s /\
+  fdt s' = fdt s /\ pairs s' = pairs s.
+Proof.
+  unfold io_check_fd.
+  pose proof (epoll_ctl_same s CAdd fd ONLY_IN) as X. cbv zeta in X.
+  destruct (epoll_ctl s CAdd fd ONLY_IN) as [s1 e1]. cbn [fst] in X.
+  destruct X as [X1 [X2 [X3 [[X4 [X5 [X6 [X7 [X8 [X9 [X10 X11]]]]]]] [X12 X13]]]]].
+  destruct (_ || _).
+  - pose proof (epoll_ctl_same s1 CDel fd ONLY_IN) as Y. cbv zeta in Y.
+    destruct (epoll_ctl s1 CDel fd ONLY_IN) as [s2 e2]. cbn [fst] in Y.
+    destruct Y as [Y1 [Y2 [Y3 [[Y4 [Y5 [Y6 [Y7 [Y8 [Y9 [Y10 Y11]]]]]]] [Y12 Y13]]]]].
+    destruct (e2 =? 0); cbn; split_all; congruence.
+  - cbn; split_all; congruence.
+Qed.
+
+(* what every poll callback event of a run satisfies *)
+Definition EN (e : event) : Prop :=
+  match e with
+  | ECb i st ev req efd rep hfd gs n =>
+      (exists k, gs = Some k /\ (k < n)%nat) /\ efd = hfd /\
+      ((st = 0 /\ ev <> m0 /\ msub ev req /\ (m_err rep = true \/ m_hup rep = true \/ msub ev rep)) \/
+       (st = UV_EBADF /\ ev = m0 /\ m_err rep = true))
+  | _ => True
+  end.
+
+Lemma valid_lt s i : valid s i = true -> (i < length (hs s))%nat.
+Proof. unfold valid. intros H. apply andb_prop in H. destruct H as [H _]. apply Nat.ltb_lt; auto. Qed.
+
+Lemma NI_api fdo s o : NI s -> NI (fst (api fdo s o)) /\ Forall EN (snd (api fdo s o)).
+Proof.
+  intros Hn. unfold api. destruct (aborted s); [split; [auto|repeat constructor]|].
+  destruct o.
+  - (* OOpen *)
+    case_all; cbn [fst snd]; (split; [|repeat constructor]); auto;
+      (eapply NI_same; [..|exact Hn]; unfold k_open; reflexivity).
+  - (* ODup *)
+    case_all; cbn [fst snd]; (split; [|repeat constructor]); auto;
+      (eapply NI_same; [..|exact Hn]; unfold k_dup; case_all; reflexivity).
+  - (* OCloseFd *)
+    case_all; cbn [fst snd]; (split; [|repeat constructor]); auto;
+      (eapply NI_same; [..|exact Hn]; unfold k_close; case_all; reflexivity).
+  - split; [auto|constructor].
+  - (* OInit *)
+    destruct (_ || _ || _); [split; [auto|repeat constructor]|].
+    unfold poll_init. destruct (fd_exists s (slots s sl)).
+    + cbn [fst snd]. split; [|repeat constructor]. apply NI_append; auto.
+    + destruct (io_check_fd s (slots s sl)) as [s1 rc] eqn:Hc.
+      assert (Hn1 : NI s1).
+      { pose proof (io_check_fd_same s (slots s sl)) as X. rewrite Hc in X. cbv zeta in X. cbn [fst] in X.
+        destruct X as [X1 [X2 [_ [X4 [X5 [X6 [X7 _]]]]]]]. eapply NI_same; [..|exact Hn]; auto. }
+      destruct (rc =? 0); cbn [fst snd]; (split; [|repeat constructor]); apply NI_append; auto.
+  - (* ORawInit *)
+    destruct (_ || _); [split; [auto|repeat constructor]|]. cbn [fst snd]. split; [|repeat constructor].
+    unfold raw_init. apply NI_append; auto.
+  - (* OStart *)
+    destruct (valid s h && _) eqn:Hv; [|split; [auto|repeat constructor]].
+    apply andb_prop in Hv. destruct Hv as [Hv _]. apply valid_lt in Hv.
+    destruct (h_kind (hget s h)) eqn:Hk.
+    + pose proof (NI_poll_start s h (mand m ALLEV) Hn Hv Hk) as X.
+      destruct (poll_start s h (mand m ALLEV)) as [s1 rc]. cbn [fst snd] in *. split; [auto|repeat constructor].
+    + destruct (mzero (mand m ALLEV)) eqn:Hz; cbn [fst snd]; (split; [|repeat constructor]); auto.
+      apply NI_io_start_raw; auto. apply mand_allev_errhup.
+  - (* OStop *)
+    destruct (valid s h) eqn:Hv; [|split; [auto|repeat constructor]]. apply valid_lt in Hv.
+    destruct (h_kind (hget s h)) eqn:Hk.
+    + cbn [fst snd]. split; [|repeat constructor]. apply (NI_poll_stop s h Hn Hv).
+    + destruct (mzero (mand m ALLEV)); cbn [fst snd]; (split; [|repeat constructor]); auto.
+      apply NI_io_stop; auto.
+  - (* OClose *)
+    destruct (valid s h) eqn:Hv; [|split; [auto|repeat constructor]]. apply valid_lt in Hv.
+    destruct (h_kind (hget s h)) eqn:Hk; cbn [fst snd]; (split; [|repeat constructor]).
+    + apply NI_hupd_view; [intros; reflexivity|]. apply (NI_poll_stop s h Hn Hv).
+    + apply NI_hupd_view; [intros; reflexivity|]. unfold io_close.
+      apply NI_invalidate.
+      destruct (NI_io_stop s h ALLEV Hn Hv (or_intror eq_refl)) as [X _].
+      destruct (io_stop_same s h ALLEV) as [[_ [_ [Sp [Sq _]]]] _].
+      apply NI_queues; auto; intros j Hj; apply In_remove_id in Hj; destruct Hj as [Hj _];
+        rewrite Sp, Sq; rewrite ?Sp in Hj; rewrite ?Sq in Hj; auto.
+  - (* OFeed *)
+    destruct (valid s h && is_raw (hget s h)) eqn:Hv; [|split; [auto|repeat constructor]].
+    cbn [fst snd]. split; [|repeat constructor]. apply andb_prop in Hv. destruct Hv as [_ Hr].
+    unfold io_feed. destruct (_ || _); auto. destruct Hn as [A B C D]. constructor; auto.
+    intros j Hj. change (hget (set_pend s (pend s ++ [h])) j) with (hget s j).
+    destruct Hj as [Hj|Hj]; cbn in Hj.
+    + apply in_app_or in Hj. destruct Hj as [Hj|[<-|[]]]; auto.
+      unfold is_raw, kind_eqb in Hr. destruct (h_kind (hget s h)); auto; discriminate.
+    + auto.
+  - (* OActive *)
+    case_all; cbn [fst snd]; (split; [auto|repeat constructor]).
+  - split; [auto|constructor].
+Qed.
+
+(* ---- the steps of uv__io_poll / uv__run_pending -------------------------------------- *)
+Lemma NI_epoll_ctl s op fd m : NI s -> NI (fst (epoll_ctl s op fd m)).
+Proof.
+  intros Hn. pose proof (epoll_ctl_same s op fd m) as X. cbv zeta in X.
+  destruct X as [X1 [X2 [_ [[X4 [X5 [X6 [X7 _]]]] _]]]]. eapply NI_same; [..|exact Hn]; auto.
+Qed.
+
+Lemma NI_set_aborted s b : NI s -> NI (set_aborted s b).
+Proof. apply NI_same; reflexivity. Qed.
+Lemma NI_set_sq s q : NI s -> NI (set_sq s q).
+Proof. apply NI_same; reflexivity. Qed.
+Lemma NI_set_wq s q : NI s -> NI (set_wq s q).
+Proof. apply NI_same; reflexivity. Qed.
+
+Lemma NI_reg_loop q : forall s, NI s -> NI (reg_loop s q).
+Proof.
+  induction q as [|i r IH]; intros s Hn; cbn [reg_loop]; auto.
+  set (s1 := hupd s i (fun h => h_set_ev h (h_pev h))).
+  assert (H1 : NI s1) by (apply NI_hupd_view; auto; intros; reflexivity).
+  destruct (ring s1).
+  - apply IH. apply NI_set_sq; auto.
+  - set (op := if mzero (h_ev (hget s i)) then CAdd else CMod).
+    pose proof (NI_epoll_ctl s1 op (h_fd (hget s i)) (h_pev (hget s i)) H1) as H2.
+    destruct (epoll_ctl s1 op (h_fd (hget s i)) (h_pev (hget s i))) as [s2 e]. cbn [fst] in H2.
+    destruct (e =? 0); [apply IH; auto|].
+    pose proof (NI_epoll_ctl s2 CMod (h_fd (hget s i)) (h_pev (hget s i)) H2) as H3.
+    destruct (epoll_ctl s2 CMod (h_fd (hget s i)) (h_pev (hget s i))) as [s3 e2]. cbn [fst] in H3.
+    destruct (e2 =? 0); apply IH; auto. apply NI_set_aborted; auto.
+Qed.
+
+Lemma NI_flush_entries l : forall s retry, NI s -> NI (fst (flush_entries s l retry)).
+Proof.
+  induction l as [|[[op fd] m] r IH]; intros s retry Hn; cbn [flush_entries]; auto.
+  pose proof (NI_epoll_ctl s op fd m Hn) as H1.
+  destruct (epoll_ctl s op fd m) as [s1 e]. cbn [fst] in H1.
+  destruct (e =? 0); [apply IH; auto|].
+  destruct op; [destruct (e =? EEXIST)| |]; apply IH; auto; apply NI_set_aborted; auto.
+Qed.
+
+Lemma NI_ctl_flush s : NI s -> NI (ctl_flush s).
+Proof.
+  intros Hn. unfold ctl_flush.
+  pose proof (NI_flush_entries (sq s) (set_sq s []) [] (NI_set_sq _ _ Hn)) as H.
+  destruct (flush_entries (set_sq s []) (sq s) []) as [s1 retry]. cbn [fst] in H. apply NI_set_sq; auto.
+Qed.
+
+Lemma NI_poll_prepare s : NI s -> NI (poll_prepare s).
+Proof.
+  intros Hn. unfold poll_prepare.
+  pose proof (NI_reg_loop (wq s) _ (NI_set_wq s [] Hn)) as H1.
+  destruct (ring _); auto. unfold ctl_flush_all. destruct (sq _); auto.
+  pose proof (NI_ctl_flush _ H1) as H2. destruct (sq (ctl_flush _)); auto. apply NI_ctl_flush; auto.
+Qed.
+
+Lemma NI_poll_fetch s ans : NI s -> NI (poll_fetch s ans).
+Proof.
+  intros [A B C D]. unfold poll_fetch. constructor; auto.
+  - intros fd i Hc. cbn in Hc. destruct (B _ _ Hc) as [B1 [B2 [B3 B4]]]. split_all; auto.
+    intros Hk. destruct (B4 Hk) as [k [K1 [K2 K3]]]. exists k. cbn. split_all; auto.
+  - intros f orig rep Hin. cbn in Hin. apply in_map_iff in Hin. destruct Hin as [[f' r'] [He _]].
+    inversion He; subst. right. split; auto. intros i Hc Hk. cbn in Hc.
+    destruct (B _ _ Hc) as [_ [_ [_ B4]]]. destruct (B4 Hk) as [k [K1 [K2 _]]]. exists k. cbn. split; auto. lia.
+Qed.
+
+(* the mask handed to the watcher by the dispatch loop *)
+Definition disp_ev (rep pev : mask) : mask :=
+  let ev1 := mand rep (mor pev ERRHUP) in
+  if meqb ev1 ONLY_ERR || meqb ev1 ONLY_HUP then mor ev1 (mand pev ALLEV) else ev1.
+
+Lemma disp_ev_ebadf rep pev : m_err (disp_ev rep pev) = true -> m_err rep = true.
+Proof.
+  unfold disp_ev. mk_destruct rep; mk_destruct pev.
+  destruct m_err; [reflexivity|]. bools; cbn; intros; auto.
+Qed.
+
+Lemma disp_ev_ok rep pev :
+  mand pev ERRHUP = m0 -> mzero pev = false -> mzero (disp_ev rep pev) = false ->
+  m_err (disp_ev rep pev) && negb (m_pri (disp_ev rep pev)) = false ->
+  mand (disp_ev rep pev) ALLEV <> m0 /\ msub (mand (disp_ev rep pev) ALLEV) pev /\
+  (m_err rep = true \/ m_hup rep = true \/ msub (mand (disp_ev rep pev) ALLEV) rep).
+Proof.
+  unfold disp_ev, msub, mzero. mk_destruct rep; mk_destruct pev.
+  destruct m_err0; [cbn; discriminate|]. destruct m_hup0; [cbn; discriminate|].
+  destruct m_in, m_pri, m_out, m_err, m_hup, m_rdhup, m_in0, m_pri0, m_out0, m_rdhup0; cbn;
+    intros; try discriminate; split_all; auto; try discriminate.
+Qed.
+
+Lemma dispatch_target_call s fd orig rep i ev o2 r2 :
+  dispatch_target s (fd, orig, rep) = TCall i ev o2 r2 ->
+  fd <> -1 /\ reg s fd = Some i /\ ev = disp_ev rep (h_pev (hget s i)) /\ mzero ev = false /\
+  o2 = orig /\ r2 = rep.
+Proof.
+  unfold dispatch_target. destruct (Z.eqb_spec fd (-1)); [discriminate|].
+  destruct (reg s fd) as [j|]; [|discriminate].
+  fold (disp_ev rep (h_pev (hget s j))).
+  destruct (mzero (disp_ev rep (h_pev (hget s j)))) eqn:Hz; [discriminate|].
+  intros H. inversion H; subst. auto 10.
+Qed.
+
+Lemma NI_disp s e rest : NI s -> batch s = e :: rest ->
+  match dispatch_target (set_batch s rest) e with
+  | TSkip => NI (set_batch s rest)
+  | TDel fd => NI (fst (epoll_ctl (set_batch s rest) CDel fd m0))
+  | TCall i ev orig rep =>
+      NI (fst (cb_pre (set_batch s rest) i ev orig rep)) /\
+      EN (snd (cb_pre (set_batch s rest) i ev orig rep))
+  end.
+Proof.
+  intros Hn Hb.
+  assert (H0 : NI (set_batch s rest)).
+  { apply NI_batch_sub; auto. intros x Hx. rewrite Hb. right; auto. }
+  destruct (dispatch_target (set_batch s rest) e) as [|fd|i ev o2 r2] eqn:Ht; auto.
+  - apply NI_epoll_ctl; auto.
+  - destruct e as [[fd orig] rep].
+    apply dispatch_target_call in Ht. destruct Ht as [Hfd [Hr [Hev [Hz [-> ->]]]]].
+    set (s0 := set_batch s rest) in *.
+    change (reg s0 fd) with (reg s fd) in Hr. change (hget s0 i) with (hget s i) in Hev.
+    destruct Hn as [A B C D].
+    destruct (B _ _ Hr) as [Hl [Hf [Hp Hpoll]]].
+    assert (Hin : In (fd, orig, rep) (batch s)) by (rewrite Hb; left; auto).
+    destruct (C _ _ _ Hin) as [|[Ho F]]; [contradiction|].
+    unfold cb_pre. change (hget s0 i) with (hget s i). change (npw s0) with (npw s).
+    destruct (h_kind (hget s i)) eqn:Hk; [|cbn; auto].
+    destruct (Hpoll eq_refl) as [k [K1 [K2 K3]]].
+    destruct (F i Hr Hk) as [k' [K1' K2']].
+    destruct (m_err ev && negb (m_pri ev)) eqn:Heb; cbn [fst snd].
+    + split.
+      * destruct (NI_io_stop s0 i ALLEV H0 Hl (or_intror eq_refl)) as [X1 X2].
+        apply NI_hupd_unreg; auto.
+      * cbn. split_all; eauto; try congruence. right. split_all; auto.
+        apply andb_prop in Heb. destruct Heb as [Heb _]. subst ev. eapply disp_ev_ebadf; eauto.
+    + split; auto. cbn. split_all; eauto; try congruence. left.
+      subst ev. rewrite <- K3.
+      destruct (disp_ev_ok rep (h_pev (hget s i)) (A i) Hp Hz Heb) as [X1 [X2 X3]]. auto.
+Qed.
+
+Lemma NI_pend_step s i rest : NI s -> prun s = i :: rest ->
+  NI (fst (cb_pre (set_prun s rest) i ONLY_OUT (-1) m0)) /\
+  EN (snd (cb_pre (set_prun s rest) i ONLY_OUT (-1) m0)).
+Proof.
+  intros Hn Hb. destruct Hn as [A B C D].
+  assert (Hk : h_kind (hget s i) = KRaw) by (apply D; right; rewrite Hb; left; auto).
+  unfold cb_pre. change (hget (set_prun s rest) i) with (hget s i). rewrite Hk. cbn. split; auto.
+  constructor; auto. intros j [Hj|Hj]; cbn in Hj; apply D; auto. right. rewrite Hb. right; auto.
+Qed.
+
+(* ---- the theorem ------------------------------------------------------------------------ *)
+Theorem run_NI : forall fdo pw beh os s s' evs,
+  NI s -> run fdo pw beh s os = (s', evs) -> NI s' /\ Forall EN evs.
+Proof.
+  intros fdo pw beh. apply (run_gen NI EN fdo pw beh).
+  - intros; apply NI_api; auto.
+  - intros s n. apply NI_same; reflexivity.
+  - apply NI_disp.
+  - apply NI_pend_step.
+  - intros s [A B C D]. constructor; auto. intros j [[]|Hj]. cbn in Hj. apply D; auto.
+  - intros s [A B C D]. constructor; auto. intros j [Hj|[]]. cbn in Hj. apply D; auto.
+  - intros s ans Hn _. split; [exact Logic.I|]. apply NI_poll_fetch. apply NI_poll_prepare; auto.
+  - intros s Hn _. apply NI_poll_prepare; auto.
+  - intros s Hn. apply NI_batch_sub; auto. intros e [].
+  - exact Logic.I.
+  - exact Logic.I.
+Qed.
+
+Theorem callbacks_ok : forall fdo pw beh os rng strct,
+  Forall EN (snd (run fdo pw beh (sinit rng strct) os)).
+Proof.
+  intros. destruct (run fdo pw beh (sinit rng strct) os) as [s' evs] eqn:H.
+  eapply run_NI in H; [|apply NI_init]. apply H.
 Qed.
